@@ -41,6 +41,8 @@ ELIGIBLE = {
     "set_sv": ("validator:sv",),
     "setq_v": ("validator:v",), "set_pv": ("validator:v",), "del_pv": (),
     "read_dp": ("getter:dp",),
+    # 'del obj.dflt' with listeners computes the default to report it as the new value
+    "del_dflt": ("default:dflt",),
 }
 
 # getters that traits itself runs while it notifies the listeners of a property
@@ -159,6 +161,10 @@ class World:
             events.append(("static_v", obj.uid))
             env.point("h:static_v")
 
+        def _dflt_changed(obj, old, new):
+            events.append(("static_dflt", obj.uid))
+            env.point("h:static_dflt")
+
         def _items_items_changed(obj, event):
             events.append(("static_items", obj.uid))
             env.point("h:static_items")
@@ -175,7 +181,7 @@ class World:
                 "child": T.Instance(T.HasTraits),
                 "_dflt_default": _dflt_default, "_get_p": _get_p, "_set_p": _set_p,
                 "_get_cp": T.cached_property(_get_cp), "_get_dp": T.cached_property(_get_dp),
-                "_v_changed": _v_changed,
+                "_v_changed": _v_changed, "_dflt_changed": _dflt_changed,
                 "_items_items_changed": _items_items_changed,
             }
             W = type(T.HasTraits)("W", (T.HasTraits,), ns)
@@ -256,6 +262,8 @@ class World:
             f = lambda: setattr(o, "pv", val)                     # noqa: E731
         elif k == "del_pv":
             f = lambda: delattr(o, "pv") if "pv" in o.__dict__ else None   # noqa: E731
+        elif k == "del_dflt":
+            f = lambda: delattr(o, "dflt") if "dflt" in o.__dict__ else None   # noqa: E731
         elif k == "read_dflt":
             f = lambda: plain(o.dflt)                             # noqa: E731
         elif k == "set_dflt":
@@ -511,7 +519,8 @@ class Prop:
                                else {"k": kk, "o": o})
                 continue
             k = r.choice(["set_v", "set_v", "set_sv", "set_sv", "setq_v", "set_pv", "set_pv",
-                          "del_pv", "read_dp", "set_u", "read_dflt", "set_dflt", "read_fac", "read_p",
+                          "del_pv", "read_dp", "set_u", "read_dflt", "set_dflt", "del_dflt", "read_fac",
+                          "read_p",
                           "set_p", "read_cp", "items", "items", "items", "del_items", "set_items",
                           "d", "d", "s", "s", "tl", "set_sup", "set_dv", "set_child", "reg", "unreg",
                           "probe"])
